@@ -212,6 +212,8 @@ def gen_cases(ctx, pms, rng, per_version):
         for version in DV.COMPOSEINFO_VERSIONS:
             force = ["depth-3", "layered", "layered-product-variant", "all-variant-types", "dashed-top-prefix-of-sibling", "many-variants", "dashed-top-with-children", None][i % 8]
             D = FC.gen_description(rng, force, hostile=False)
+            if force is None and rng.random() < 0.3:
+                formats.equalise("composeinfo", D, rng)
             textin, E = DV.composeinfo(D, version, rng)
             case = {"fmt": "composeinfo", "version": version, "document": textin}
             if DV.vt(version) < (1, 0) and any(n["parent"] for n in iter_obs_nodes(E["variants"])):
@@ -250,6 +252,8 @@ def gen_cases(ctx, pms, rng, per_version):
         for version in DV.TREEINFO_VERSIONS:
             force = ["src-tree", "depth-3", "child-every-type", "images", "media", "stage2", "checksums", "layered", "many-variants", None][i % 10]
             D = FT.gen_description(rng, force, hostile=(i % 4 == 0 and version != "0.0"))
+            if force is None and rng.random() < 0.3:
+                formats.equalise("treeinfo", D, rng)
             if DV.vt(version) <= (0, 3):
                 prune_id_collisions(D)
             if version == "0.0":
